@@ -1,6 +1,6 @@
 (* C11 - proofs about the leaf algorithm models of C11_Model.v (all unbounded). *)
 From Coq Require Import ZArith List Bool Arith Lia ZifyBool.
-Require Import C11_Model.
+Require Import Reduce ReduceExec C11_Model.
 Import ListNotations.
 Local Open Scope Z_scope.
 
@@ -681,4 +681,39 @@ Proof.
   destruct (cns_ctor_rows (2 ^ 128) k n); unfold Mx in H.
   - split; [intros _; apply H|reflexivity].
   - split; [discriminate|lia].
+Qed.
+
+(* ================================================================== I. the oracle's run-time order check *)
+Lemma in_combine_seq {A} (l : list A) : forall s j x, In (j, x) (combine (seq s (length l)) l) <-> (s <= j)%nat /\ nth_error l (j - s) = Some x.
+Proof.
+  induction l as [|y l IH]; intros s j x; cbn [length seq combine].
+  - split; [intros []|]. intros [_ H]. destruct (j - s)%nat; discriminate.
+  - cbn [In]. rewrite IH. split.
+    + intros [E|[H1 H2]].
+      * inversion E; subst. split; [lia|]. rewrite Nat.sub_diag. reflexivity.
+      * split; [lia|]. replace (j - s)%nat with (S (j - S s)) by lia. exact H2.
+    + intros [H1 H2]. destruct (Nat.eq_dec j s) as [->|Hne].
+      * left. rewrite Nat.sub_diag in H2. cbn in H2. inversion H2. reflexivity.
+      * right. split; [lia|]. replace (j - s)%nat with (S (j - S s)) in H2 by lia. exact H2.
+Qed.
+Lemma faces_precede_spec cols : faces_precede cols = true ->
+  forall j col r c, nth_error cols j = Some col -> In (r, c) col -> (r < j)%nat.
+Proof.
+  unfold faces_precede. rewrite forallb_forall. intros H j col r c Hn Hin.
+  specialize (H (j, col)). cbn [fst snd] in H. rewrite forallb_forall in H.
+  assert (Hc : In (j, col) (combine (seq 0 (length cols)) cols)).
+  { apply in_combine_seq. split; [lia|]. rewrite Nat.sub_0_r. exact Hn. }
+  specialize (H Hc (r, c) Hin). cbn [fst] in H. apply Nat.ltb_lt in H. exact H.
+Qed.
+(* whenever the oracle answers, its matrix is the boundary matrix of an order in which faces precede cofaces, and the pairing was
+   certified *)
+Theorem barcode_some p M T n dim_max l : barcode p M T n dim_max = Some l ->
+  exists cols lw, boundary_matrix (filtration M T n dim_max) = Some cols /\
+    (forall j col r c, nth_error cols j = Some col -> In (r, c) col -> (r < j)%nat) /\
+    certified_lows p (dense_of_sparse (length (filtration M T n dim_max)) cols) = Some lw.
+Proof.
+  unfold barcode. destruct (boundary_matrix (filtration M T n dim_max)) as [cols|]; [|discriminate].
+  destruct (faces_precede cols) eqn:E; cbn [negb]; [|discriminate].
+  destruct (certified_lows p (dense_of_sparse (length (filtration M T n dim_max)) cols)) as [lw|] eqn:EC; [|discriminate].
+  intros _. exists cols, lw. split; [reflexivity|]. split; [apply faces_precede_spec; exact E|exact EC].
 Qed.
